@@ -27,7 +27,7 @@ RULE = ("Call alphabet (~170 calls derived from the live configuration): Sid fro
 ASSUME = ["client code mutating a returned container is not a call of the alphabet",
           "file-system backed finds are compared as sets (directory order is not part of the result); list and unfold results keep their order",
           "after a create, 'fresh' means a fresh child on the same tree state"]
-BUDGET = {"quick": 26, "thorough": 640}      # histories per worker
+BUDGET = {"quick": 26, "thorough": 1600}      # histories per worker
 NSHARDS = 16
 NSEEDS = 8
 
